@@ -87,13 +87,6 @@ def finish(run: Run, seed: int = 0) -> int:
     known = load_known()
     known_keys = {k["key"]: k for k in known.get("known", []) if k.get("property") == run.prop}
 
-    # vacuity guard
-    for rule, n in run.floors.items():
-        got = sum(1 for o in run.obs if o.rule == rule and o.status in (HOLDS, VIOLATED))
-        if got < n:
-            und = sum(1 for o in run.obs if o.rule == rule and o.status == UNDECIDED)
-            raise AnalysisError(f"rule {rule}: only {got} decided instances (+{und} undecided), floor is {n}")
-
     viol = [o for o in run.obs if o.status == VIOLATED]
     # de-duplicate by key
     seen: Dict[str, Obligation] = {}
@@ -139,6 +132,15 @@ def finish(run: Run, seed: int = 0) -> int:
                        "detail": o.detail, "witness": o.witness, "key": o.key}, f, indent=1)
         print(f"  VIOLATED {o.key}\n    at {o.site}\n    {o.detail}" + (f"\n    witness: {o.witness}" if o.witness else ""))
         print(f"VIOLATION property={run.prop} replay={rp}")
+
+    # vacuity guard: a rule whose decided instances fall below the floor confirmed by hand has lost its subject.
+    # A run that found new violations reports them (exit 1); only a would-be PASS is turned into exit 2.
+    if not new:
+        for rule, n in run.floors.items():
+            got = sum(1 for o in run.obs if o.rule == rule and o.status in (HOLDS, VIOLATED))
+            if got < n:
+                und = sum(1 for o in run.obs if o.rule == rule and o.status == UNDECIDED)
+                raise AnalysisError(f"rule {rule}: only {got} decided instances (+{und} undecided), floor is {n}")
 
     distinct_nontrivial = len({o.key for o in run.obs if o.nontrivial and o.status in (HOLDS, VIOLATED)})
     samples = []
